@@ -284,8 +284,8 @@ class P(Prop):
         name = "Douglas-Peucker" if k == "dp" else "Visvalingam"
         xs, ys, tol = case["xs"], case["ys"], case["tol"]
         n = len(xs)
-        if not tol > 0:
-            return None                                      # outside the property's domain
+        if not tol > 0 or n < 2:
+            return None                                      # outside the property's domain (tracks of >= 2 fixes, positive tolerances)
         if "err" in out:
             return "%s raised %s (%s) on %s" % (name, out["err"], out.get("detail", ""), list(zip(xs, ys)))
         kept = out["kept"]
